@@ -118,6 +118,23 @@ impl SimplexStep {
     }
 }
 
+/// Native read accessors for verification harnesses (the existing getters are wasm-only).
+#[cfg(feature = "verif_hooks")]
+impl SimplexStep {
+    pub fn verif_tableau(&self) -> &Tableau {
+        &self.tableau
+    }
+    pub fn verif_entering(&self) -> usize {
+        self.entering
+    }
+    pub fn verif_leaving(&self) -> usize {
+        self.leaving
+    }
+    pub fn verif_ratio(&self) -> f64 {
+        self.ratio
+    }
+}
+
 impl Display for SimplexStep {
     fn fmt(&self, f: &mut fmt::Formatter<'_>) -> fmt::Result {
         let tableau = self.tableau.to_string();
